@@ -29,7 +29,7 @@ from vlib.runner import hyp_run
 PROPERTY = "C14"
 LEVEL = "exploration"
 RULE = ("message histories over 2 tracked regions + 1 never-tracked handle, 6 local IDs per region, 6 full IDs (4 prims, 2 "
-        "avatars), delivered to a real client or proxy session; after every step the code's indices, links, kill events and "
+        "avatars; full, compressed (some spinning), terse and cached announcements, the viewer cache read once per connection), delivered to a real client or proxy session; after every step the code's indices, links, kill events and "
         "request futures are compared with a flat-table reference model. Non-trivial = a kill, re-parent, local-ID change, "
         "region move or teardown happening after at least two announcements")
 ASSUMPTIONS = [
